@@ -123,6 +123,7 @@ class RunResult(object):
         self.dev = None
         self.sess = None
         self.extra = {}
+        self.held = {}        # generators of streaming_shell kept by the caller: name -> dict(gen, items, i, outcome)
 
 
 def build_device(spec, rec=None, chooser=None):
@@ -304,6 +305,15 @@ def run(spec, mode='sync', rec=None, chooser=None, keep_session=False, **core_kw
         if tmp:
             shutil.rmtree(tmp, ignore_errors=True)
         if rr.sess is not None and not keep_session:
+            for h in list(rr.held.values()):
+                # generators the caller never came back to: finalise them before the event loop goes away
+                try:
+                    if rr.sess.mode == 'sync':
+                        h['gen'].close()
+                    else:
+                        rr.sess.loop.run_until_complete(h['gen'].aclose())
+                except BaseException:  # noqa
+                    pass
             rr.sess.close_loop()
     return rr
 
@@ -377,8 +387,92 @@ def _local(path, how):
     return path
 
 
+_STOP = (StopIteration, StopAsyncIteration)
+
+
+def _gen_step(s, g):
+    return next(g) if s.mode == 'sync' else s.loop.run_until_complete(g.__anext__())
+
+
+def _gen_op(s, op, a, i, rr, tkw):
+    """streaming_shell consumed piecemeal: `take` items are requested, then the generator is either kept under the name `hold`
+    (a later op `resume` goes on with it - cooperative concurrency in one thread / task) or closed by the caller (`abandon`).
+    A kept generator is its own actor in the event log."""
+    from . import sched
+    name = op.get('hold')
+    tok = sched.CUR.set(name) if name else None
+    try:
+        s.rebind_clock()
+        s.rec.ev('call', api='streaming_shell', info=dict(i=i), clk=int(s.clock.time()))
+        items = []
+        out = env.Outcome('ret', value=items)
+        try:
+            g = s.device.streaming_shell(a['cmd'], decode=op.get('decode', True), **tkw)
+            g = iter(g) if s.mode == 'sync' else g.__aiter__()
+            finished = False
+            for _ in range(op.get('take', 0)):
+                try:
+                    items.append(_gen_step(s, g))
+                except _STOP:
+                    finished = True
+                    break
+            if finished:
+                s.rec.ev('ret', api='streaming_shell', avail=bool(s.device.available), clk=int(s.clock.time()))
+            elif name:
+                rr.held[name] = dict(gen=g, items=items, i=i, outcome=out)
+            else:
+                if s.mode == 'sync':
+                    g.close()
+                else:
+                    s.loop.run_until_complete(g.aclose())
+                s.rec.ev('abandon', api='streaming_shell', avail=bool(s.device.available))
+        except transports.Watchdog:
+            raise
+        except Exception as e:  # noqa
+            s.rec.ev('exc', api='streaming_shell', cls=type(e).__name__, avail=bool(s.device.available), clk=int(s.clock.time()))
+            return env.Outcome('exc', exc=e)
+        return out
+    finally:
+        if tok is not None:
+            sched.CUR.reset(tok)
+
+
+def _resume_op(s, op, rr):
+    from . import sched
+    h = rr.held.get(op['gen'])
+    if h is None:
+        return env.Outcome('ret', value=None)
+    tok = sched.CUR.set(op['gen'])
+    try:
+        s.rebind_clock()
+        n = op.get('take')
+        try:
+            while n is None or n > 0:
+                h['items'].append(_gen_step(s, h['gen']))
+                if n is not None:
+                    n -= 1
+        except _STOP:
+            rr.held.pop(op['gen'], None)
+            s.rec.ev('ret', api='streaming_shell', avail=bool(s.device.available), clk=int(s.clock.time()))
+        except transports.Watchdog:
+            raise
+        except Exception as e:  # noqa
+            rr.held.pop(op['gen'], None)
+            s.rec.ev('exc', api='streaming_shell', cls=type(e).__name__, avail=bool(s.device.available), clk=int(s.clock.time()))
+            h['outcome'].kind, h['outcome'].exc = 'exc', e
+            return env.Outcome('exc', exc=e)
+        return env.Outcome('ret', value=None)
+    finally:
+        sched.CUR.reset(tok)
+
+
 def run_op(s, op, a, tmp, i, rr):
     api = op['api']
+    if api == 'resume':
+        return _resume_op(s, op, rr)
+    if api == 'clock':
+        s.clock.advance(op['advance'])        # wall-clock time passes between two operations
+        return env.Outcome('ret', value=None)
     tkw = {k: op[k] for k in ('transport_timeout_s', 'read_timeout_s', 'timeout_s') if k in op}
     if api == 'reconnect':
         if 'maxdata' in op:
@@ -403,11 +497,15 @@ def run_op(s, op, a, tmp, i, rr):
         s.dev.hold_next_open = True     # the device withholds everything of this stream until the next OPEN arrives
     if api in ('shell', 'exec_out'):
         return s.call(api, a['cmd'], decode=op.get('decode', True), _info=dict(i=i), **tkw)
+    if api == 'streaming_shell' and ('take' in op or 'hold' in op):
+        return _gen_op(s, op, a, i, rr, tkw)
     if api == 'streaming_shell':
         return s.call(api, a['cmd'], decode=op.get('decode', True), _info=dict(i=i), **tkw)
     if api == 'root':
         return s.call('root', _info=dict(i=i), **tkw)
     if api == 'reboot':
+        if op.get('fastboot'):
+            return s.call('reboot', fastboot=True, _info=dict(i=i), **tkw)
         return s.call('reboot', _info=dict(i=i), **tkw)
     def P(x):
         return x.encode('utf8') if op.get('path_bytes') else x
@@ -554,33 +652,35 @@ SHELLISH = ('shell', 'exec_out', 'streaming_shell')
 
 
 def project_events(rr, spec, syms=False):
-    """Events of a run -> trace for TraceEnv: adds decode to calls and the named content to shell results."""
+    """Events of a run -> trace for TraceEnv: adds decode to calls and the named content to shell results.
+    The operation in progress is tracked per actor (the main thread; every generator kept by the caller is an actor of its own)."""
     out = []
-    cur = None          # (op index, op dict)
-    lid = None
-    k = 0               # outcome index (connect first)
     outcomes = list(rr.outcomes)
     base = 1 if spec.get('connect', True) else 0
     streams = {}
     for st in rr.dev.every_stream if rr.dev else []:
         streams.setdefault(st.lid, []).append(st)
     seen_lid = {}
+    actors = {}         # t -> dict(cur=(op index, op dict), lid, stream)
     for e in rr.events:
         ev = e['ev']
         f = {kk: v for kk, v in e.items() if not kk.startswith('_')}
+        A = actors.setdefault(f.get('t', 'main'), dict(cur=None, lid=None, stream=None))
+        cur = A['cur']
         if ev == 'call':
             info = f.pop('info', None) or {}
             i = info.get('i')
-            cur = (i, spec['ops'][i]) if i is not None else None
+            A['cur'] = cur = (i, spec['ops'][i]) if i is not None else None
             f['decode'] = bool(cur[1].get('decode', True)) if cur and cur[1]['api'] in SHELLISH else False
-            lid = None
-        elif ev == 'tx' and f['cmd'] == 'OPEN' and cur is not None and lid is None:
-            lid = wire.unlimbs(f['a0'])
+            A['lid'] = None
+        elif ev == 'tx' and f['cmd'] == 'OPEN' and cur is not None and A['lid'] is None:
+            lid = A['lid'] = wire.unlimbs(f['a0'])
             n = seen_lid.get(lid, 0)
             seen_lid[lid] = n + 1
-            cur_stream = streams.get(lid, [None] * (n + 1))[n] if len(streams.get(lid, [])) > n else None
+            A['stream'] = streams.get(lid, [None] * (n + 1))[n] if len(streams.get(lid, [])) > n else None
         elif ev == 'ret' and cur is not None and cur[1]['api'] in SHELLISH:
             o = outcomes[base + cur[0]]
+            lid, cur_stream = A['lid'], A['stream']
             api, dec = cur[1]['api'], bool(cur[1].get('decode', True))
             payloads = cur_stream.sent if lid is not None and cur_stream is not None else []
             if syms:
@@ -668,6 +768,22 @@ def gen_session(rng, idx, big=False, adversarial=False, ops_max=6, allow=('shell
                 op['chunks'].insert(rng.randrange(len(op['chunks']) + 1), '')          # a zero-length WRITE
             if op['api'] not in ('root', 'reboot') and rng.random() < 0.15:
                 op['zero_ids'] = rng.choice(['a0', 'a1', 'both'])                      # a legacy adbd: data packets with zero ids
+            if op['api'] == 'reboot':
+                op['fastboot'] = rng.random() < 0.5
+        # cooperative concurrency in one thread / task: a streaming generator is kept open across other operations; one is abandoned
+        if ops and rng.random() < 0.35:
+            a_ = rng.randrange(len(ops) + 1)
+            chunks = [(b'<held %d.%d>' % (idx, c) + fast_pattern(idx + c, rng.choice([1, 30, 4000]))).hex() for c in range(rng.randint(1, 5))]
+            ops.insert(a_, dict(api='streaming_shell', decode=False, cmd='held%d' % idx, chunks=chunks, take=rng.randint(0, 2), hold='g%d' % idx))
+            if rng.random() < 0.8:
+                ops.insert(rng.randint(a_ + 1, len(ops)), dict(api='resume', gen='g%d' % idx, take=rng.choice([None, None, 1])))
+            for op in ops:
+                if op.get('zero_ids') == 'both':
+                    op['zero_ids'] = 'a1'          # (0, 0) packets are anybody's: with two live streams their owner is not defined
+        if rng.random() < 0.2:
+            ops.insert(rng.randrange(len(ops) + 1), dict(api='streaming_shell', decode=False, cmd='left%d' % idx, chunks=[b'<l1>'.hex(), b'<l2>'.hex(), b'<l3>'.hex()], take=rng.randint(0, 2)))
+        if rng.random() < 0.2:
+            ops.insert(rng.randrange(len(ops) + 1), dict(api='clock', advance=rng.choice([61.0, 3600.0])))
             if op['api'] == 'pull' and rng.random() < 0.4:
                 op['dest'] = ['raise', rng.randint(1, 3)]
                 op['data_sizes'] = [rng.choice([1, 50, 4096]) for _ in range(6)] + [65536] * 64
